@@ -51,7 +51,7 @@ _ITER_LOCAL: dict[int, set[str]] = {}
 def _commutative_body(func: Func, loop: ast.AST, body: list[ast.stmt], target_names: set[str]) -> Optional[str]:
     """None if every statement of the loop body is insensitive to the iteration order, else the offending statement"""
     end = getattr(loop, "end_lineno", 0)
-    later_reads = {n.id for n in ast.walk(func.node) if isinstance(n, ast.Name) and isinstance(n.ctx, ast.Load) and n.lineno > end}
+    later_reads = {n.id for n in ast.walk(func.node) if isinstance(n, ast.Name) and isinstance(n.ctx, ast.Load) and getattr(n, "lineno", 0) > end}
     fresh_here = {t.id for s in body if isinstance(s, (ast.Assign, ast.AnnAssign)) for t in (s.targets if isinstance(s, ast.Assign) else [s.target]) if isinstance(t, ast.Name)}
     for stmt in body:
         if isinstance(stmt, (ast.Pass, ast.Continue, ast.Break, ast.Raise, ast.Assert)):
